@@ -49,7 +49,9 @@ def r_runmin(idx, rep, modules, rule="R-RUNMIN", floor=2):
                 # `best` must be a running value: assigned from a candidate in at least one guard body of the chain
                 stores = []
                 for g, cand, _ in chain:
-                    st = [s for s in ast.walk(g) if isinstance(s, ast.Assign) and any(isinstance(t, ast.Name) and t.id == best for t in s.targets) and s in g.body]
+                    # plain `best = cand` or an element of a tuple assignment `(best, p, q) = (cand, a, b)`
+                    st = [s for s in ast.walk(g) if isinstance(s, ast.Assign) and s in g.body and
+                          any((isinstance(t, ast.Name) and t.id == best) or (isinstance(t, ast.Tuple) and any(isinstance(e, ast.Name) and e.id == best for e in t.elts)) for t in s.targets)]
                     stores.append(st)
                 if len(chain) < 2 and not in_loop(chain[0][0]):
                     continue
@@ -119,7 +121,17 @@ def r_runmin(idx, rep, modules, rule="R-RUNMIN", floor=2):
                         continue
                     key = "%s|guard #%d on the running minimum" % (f.key, k)
                     where = "%s:%d" % (m.relpath, g.lineno)
-                    ok = any(u(s.value) == u(cand) for s in stores[k])
+                    def stored_value(s_):
+                        # value assigned to `best` by the statement (element-wise for tuple assignments)
+                        for t_ in s_.targets:
+                            if isinstance(t_, ast.Name) and t_.id == best:
+                                return u(s_.value)
+                            if isinstance(t_, ast.Tuple) and isinstance(s_.value, ast.Tuple) and len(t_.elts) == len(s_.value.elts):
+                                for e_, v_ in zip(t_.elts, s_.value.elts):
+                                    if isinstance(e_, ast.Name) and e_.id == best:
+                                        return u(v_)
+                        return None
+                    ok = any(stored_value(s) == u(cand) for s in stores[k])
                     rep.check(ok, rule, key, where,
                               "the block under `%s` adopts the candidate but does not store `%s = %s`, although `%s` is compared again afterwards: later "
                               "candidates are tested against a stale minimum, so a FARTHER candidate can overwrite this nearer one (wrong closest "
